@@ -312,14 +312,22 @@ def check_group(sg, res, seed):
         at = sym.crystal(sg, [(lets[-1], 29)], anchor=True, seed=seed)
         if len(at) > 600:
             at = sym.crystal(sg, [(lets[-1], 29)], anchor=False, seed=seed)
-        an = SymmetryAnalyzer(at, 1e-3)
-        got = (an.get_space_group_number(), an.get_crystal_system(), an.get_bravais_lattice(), an.get_point_group())
+        from mc import present
+        from mc.present import S
+
+        s0 = S(at.get_atomic_numbers(), at.get_positions(), np.array(at.get_cell()), (True, True, True))
         want = (sg, system, merge(want_bl), st.pointgroup_international)
-        res.counters["evaluations"] += 1
-        res.counters["traces"] += 1
         res.outcomes["%s/%s/%s" % want[1:]] += 1
-        if got != want:
-            V("c14.getters", {}, "crystal of group %d reported as %r, International Tables: %r" % (sg, got, want), got, want)
+        # the same crystal as given, as a symmetry-breaking supercell and in a sheared basis
+        for plabel, ps in (("id", s0), ("super2@0", present.supercell(s0, np.diag([2, 1, 1]))), ("shear", present.basis_change(s0, np.array([[1, 0, 0], [1, 1, 0], [0, -1, 1]])))):
+            if len(ps.num) > 600:
+                continue
+            an = SymmetryAnalyzer(ps.atoms(), 1e-3)
+            got = (an.get_space_group_number(), an.get_crystal_system(), an.get_bravais_lattice(), an.get_point_group())
+            res.counters["evaluations"] += 1
+            res.counters["traces"] += 1
+            if got != want:
+                V("c14.getters", {"presentation": plabel}, "crystal of group %d (%s) reported as %r, International Tables: %r" % (sg, plabel, got, want), got, want)
     except Exception as e:
         V("c14.getters_exception", {}, "group %d: public getters raised %r" % (sg, e))
 
